@@ -48,6 +48,7 @@ def main():
     ap.add_argument("--tier", default="quick")
     ap.add_argument("--confirm", action="store_true")
     ap.add_argument("--keep", action="store_true")
+    ap.add_argument("--base", default="HEAD", help="commit of /repo the patch was made against")
     a = ap.parse_args()
     sd = os.path.abspath(a.seed)
     name = os.path.basename(sd.rstrip("/"))
@@ -56,12 +57,12 @@ def main():
     os.makedirs(scratch)
     wt = os.path.join(scratch, "wt")
     sh(["git", "-C", "/repo", "worktree", "prune"])
-    rc, out = sh(["git", "-C", "/repo", "worktree", "add", "-q", "--detach", wt, "HEAD"])
+    rc, out = sh(["git", "-C", "/repo", "worktree", "add", "-q", "--detach", wt, a.base])
     if rc:
         print(out)
         sys.exit(2)
     shutil.copy("/repo/Cargo.lock", os.path.join(wt, "Cargo.lock"))
-    res = {"seed": name, "tier": a.tier, "checks": {}}
+    res = {"seed": name, "tier": a.tier, "base": a.base, "checks": {}}
     try:
         if a.confirm:
             rc0, out0 = demo(wt, sd)
